@@ -354,6 +354,8 @@ class PEval:
                 return scope.self_obj
             if e.id in ('True', 'False', 'None'):
                 return {'True': True, 'False': False, 'None': None}[e.id]
+            if getattr(scope, 'class_body', False) and scope.cls is not None and e.id in scope.cls.attrs:
+                return self.class_attr(scope.cls, e.id)
             if e.id in _BUILTINS:
                 return _Builtin(e.id)
             try:
@@ -610,7 +612,16 @@ class PEval:
 
     def class_attr(self, c: ClassInfo, name: str):
         expr = c.attrs[name]
-        v = self.expr(expr, Scope(c.module, c, {}))
+        busy = self.__dict__.setdefault('_class_attr_busy', set())
+        if (c.key, name) in busy:
+            raise CannotEval('class attribute %s.%s depends on itself' % (c.name, name))
+        busy.add((c.key, name))
+        try:
+            sc = Scope(c.module, c, {})
+            sc.class_body = True        # names of the class body are visible to the initialiser
+            v = self.expr(expr, sc)
+        finally:
+            busy.discard((c.key, name))
         if isinstance(v, int) and not isinstance(v, bool) and isinstance(expr, ast.Constant):
             return Tagged(v, c.name, name)
         return v
